@@ -94,6 +94,11 @@ class RecStore:
     def reset_relative_time(self):
         pass
 
+    def __getattr__(self, name):  # the telemetry devices of the real launcher write node-level metrics / meta info
+        if name.startswith(("put_", "add_meta")):
+            return lambda *a, **k: None
+        raise AttributeError(name)
+
 
 class RecSupplier:
     def __init__(self, cfg):
@@ -138,7 +143,93 @@ class RecProvisioner:
         os.makedirs(inst)
         os.makedirs(data)
         self.sim.install_dirs[inst] = (nid, data)
+        if self.sim.process_backend:
+            from esrally.mechanic import provisioner
+
+            os.makedirs(os.path.join(inst, "bin"))
+            script = os.path.join(inst, "bin", "elasticsearch")
+            with open(script, "w") as f:  # a planned launch failure: the first daemon of the host does not come up
+                f.write(FAKE_ES_FAILS if p == "failLaunch" and self.idx == 0 else FAKE_ES)
+            os.chmod(script, 0o755)
+            return provisioner.NodeConfiguration("tar", "17", True, ip_str(self.sim.keys[self.h][0]), self.node_name, inst + ".root", inst, [data])
         return NodeConfig(self.node_name, inst, [data])
+
+
+# stand-in for `bin/elasticsearch -d -p <pidfile>`: daemonises a process that records every SIGTERM it gets next to (not inside)
+# its installation and then exits; the pid file is resolved against the working directory, like Elasticsearch does
+FAKE_ES = """#!/bin/sh
+d=$(pwd)
+(
+  trap 'echo T >> "$d.signals"; trap "" TERM; kill 0; exit 0' TERM
+  sleep 600 & c=$!
+  while :; do read x < /proc/$c/comm; [ "$x" = sleep ] && break; done
+  : > "$d.ready"
+  while :; do wait $c; sleep 600 & c=$!; done
+) >/dev/null 2>&1 &
+p=$!
+while [ ! -e "$d.ready" ]; do :; done
+echo $p > "$3"
+"""
+FAKE_ES_FAILS = "#!/bin/sh\nexit 1\n"
+_REAL = {}
+
+
+def become_subreaper():
+    """orphaned daemons are re-parented to this process, so that psutil's wait() can reap them at once"""
+    import ctypes
+
+    if not _REAL.get("subreaper"):
+        _REAL["subreaper"] = True
+        try:
+            ctypes.CDLL(None, use_errno=True).prctl(36, 1, 0, 0, 0)  # PR_SET_CHILD_SUBREAPER
+        except Exception:  # pylint: disable=broad-except
+            pass
+
+
+def pid_alive(pid):
+    import psutil
+
+    try:
+        pr = psutil.Process(pid)
+        return pr.is_running() and pr.status() != psutil.STATUS_ZOMBIE
+    except psutil.NoSuchProcess:
+        return False
+
+
+class ProcessBackedLauncher:
+    """the REAL launcher.ProcessLauncher (chdir, subprocess, pid file polling, psutil terminate/wait, telemetry attach/detach)
+    on generated installations with the stand-in candidate; records the same two calls as RecLauncher for the model and
+    compares the pid of every node the launcher returns with the pid that node's own daemon wrote into its own installation"""
+
+    def __init__(self, cfg):
+        self.sim = CUR
+        self.h = CUR.cur_group()
+        self.real = _REAL["ProcessLauncher"](cfg)
+
+    def start(self, node_configurations):
+        ids = [int(nc.node_name.rsplit("-", 1)[1]) for nc in node_configurations]
+        try:
+            nodes = self.real.start(node_configurations)
+        except BaseException:
+            self.sim.call(self.h, "launch", ids, False)
+            self.sim.collect_daemons(node_configurations)
+            raise
+        self.sim.call(self.h, "launch", ids, True)
+        truth = self.sim.collect_daemons(node_configurations)
+        if [n.node_name for n in nodes] != [nc.node_name for nc in node_configurations]:
+            self.sim.proc_problem("node-pid-wrong", f"launcher returned nodes {nodes} for {ids}")
+        by_pid = {v: ids.index(k) for k, v in truth.items() if k in ids}
+        self.sim.launches.append({"group": self.h, "ids": ids, "owners": [by_pid.get(n.pid) for n in nodes]})
+        for n in nodes:
+            nid = int(n.node_name.rsplit("-", 1)[1])
+            if truth.get(nid) != n.pid:
+                owner = [k for k, v in truth.items() if v == n.pid]
+                self.sim.proc_problem("node-pid-wrong", f"node {nid} runs as the process that wrote its own pid file, but the mechanic tracks the process of node {owner}")
+        return nodes
+
+    def stop(self, nodes, metrics_store):
+        self.sim.call(self.h, "lstop", [int(n.node_name.rsplit("-", 1)[1]) for n in nodes])
+        return self.real.stop(nodes, metrics_store)
 
 
 class RecNode:
@@ -217,6 +308,7 @@ def install_patches():
         return
     from esrally import config, metrics
     from esrally.mechanic import launcher, mechanic, provisioner, supplier, team
+    from esrally.utils import sysstats
 
     def fake_auto_load(base_config, additional_sections=None, **kw):
         cfg = config.Config()
@@ -227,6 +319,11 @@ def install_patches():
         return cfg
 
     real_cleanup = provisioner.cleanup
+    _REAL["ProcessLauncher"] = launcher.ProcessLauncher
+
+    class LauncherFactory(launcher.ProcessLauncher):  # keeps the class attributes the real code refers to by class name
+        def __new__(cls, cfg):
+            return ProcessBackedLauncher(cfg) if CUR.process_backend else RecLauncher(cfg)
 
     def cleanup(preserve, install_dir, data_paths):
         real_cleanup(preserve=preserve, install_dir=install_dir, data_paths=data_paths)
@@ -250,7 +347,8 @@ def install_patches():
             (supplier, "create"): lambda cfg, sources, distribution, car, plugins: RecSupplier(cfg),
             (provisioner, "local"): lambda cfg, car, plugins, ip, port, all_ips, all_names, root, node_name: RecProvisioner(cfg, node_name),
             (provisioner, "cleanup"): cleanup,
-            (launcher, "ProcessLauncher"): lambda cfg: RecLauncher(cfg),
+            (launcher, "ProcessLauncher"): LauncherFactory,
+            (sysstats, "cpu_model"): lambda: "stand-in cpu",  # py-cpuinfo spawns subprocesses (0.3 s per node), environment info only
             (team, "team_path"): lambda cfg: "/nonexistent/team",
             (team, "load_car"): lambda path, names, params=None: FakeCar(),
             (team, "load_plugins"): lambda path, names, params=None: [],
@@ -312,7 +410,9 @@ class Ambient:
     framework's default), console verbosity, and how the binary is obtained (sources / distribution).
     spec = None (framework default: logging disabled, quiet console, distribution) or
     {"log": {"disable": bool, "levels": {logger name: level name}}, "console": "quiet" | "print",
-     "build": "distribution" | "sources" | "both"}; it is part of the case, so a replay reproduces it."""
+     "build": "distribution" | "sources" | "both", "launcher": "recording" | "process"}; it is part of the case, so a
+    replay reproduces it.  "launcher": "process" runs the REAL ProcessLauncher on generated installations (see
+    ProcessBackedLauncher); towards the model it is one more neutral switch."""
 
     def __init__(self, spec, sim):
         self.spec, self.sim, self.active = spec, sim, False
@@ -352,6 +452,12 @@ class Ambient:
             console.QUIET, console.RALLY_RUNNING_IN_DOCKER = False, True
             self.saved_stdout = sys.stdout
             sys.stdout = _Sink()
+        self.saved_geteuid = None
+        if self.spec.get("launcher") == "process":
+            become_subreaper()
+            if os.geteuid() == 0:  # Rally refuses to launch Elasticsearch as root; the sandbox only has root and the stand-in is harmless
+                self.saved_geteuid = os.geteuid
+                os.geteuid = lambda: 1000
 
     def exit(self):
         import logging
@@ -365,6 +471,8 @@ class Ambient:
             import sys
 
             sys.stdout = self.saved_stdout
+        if self.saved_geteuid is not None:
+            os.geteuid = self.saved_geteuid
         console.QUIET, console.RALLY_RUNNING_IN_DOCKER = self.saved_console
         logging.getLogger().removeHandler(self.handler)
         for n, lv in self.saved_levels.items():
@@ -380,6 +488,14 @@ class Sim:
         install_patches()
         CUR = self
         self.anomalies = []
+        self.proc_problems = []
+        self.launches = []  # per successful ProcessLauncher.start: which node's own daemon each returned node tracks
+        self.daemons = {}  # node id -> {"pid", "inst"} (ground truth: the pid file in the node's own installation)
+        self.process_backend = (spec.get("ambient") or {}).get("launcher") == "process"
+        try:
+            self.home = os.getcwd()
+        except OSError:
+            self.home = "/"
         self.ambient = Ambient(spec.get("ambient"), self)
         self.ambient.enter()
         try:
@@ -423,6 +539,21 @@ class Sim:
     # -- bookkeeping used by the recorders -------------------------------------------------------
     def anomaly(self, text):
         self.anomalies.append(text)
+
+    def proc_problem(self, cls, text):
+        self.proc_problems.append([cls, text])
+
+    def collect_daemons(self, node_configurations):
+        truth = {}
+        for nc in node_configurations:
+            nid = int(nc.node_name.rsplit("-", 1)[1])
+            try:
+                with open(os.path.join(nc.binary_path, "pid")) as f:
+                    truth[nid] = int(f.read())
+            except (OSError, ValueError):
+                continue
+            self.daemons[nid] = {"pid": truth[nid], "inst": nc.binary_path}
+        return truth
 
     def plan(self, h):
         p = self.spec["plans"]
@@ -595,6 +726,17 @@ class Sim:
 
         M = self.mechanic
         self._begin(e)
+        if self.process_backend:
+            try:
+                return self._do(e)
+            finally:
+                os.chdir(self.home)  # the launcher chdirs into installations that clean-up removes
+        return self._do(e)
+
+    def _do(self, e):
+        from thespian import actors as ta
+
+        M = self.mechanic
         kind = e[0]
         if kind == "rcStart":
             self.rc_sent_start = True
@@ -630,7 +772,26 @@ class Sim:
         from esrally import config
 
         cfg = config.Config()
-        cfg.add(config.Scope.application, "client", "hosts", Hosts([{"host": ip_str(ip), "port": port} for ip, port in self.spec["hosts"]]))
+        raw = self.spec.get("raw_hosts")
+        if raw is None:
+            cfg.add(config.Scope.application, "client", "hosts", Hosts([{"host": ip_str(ip), "port": port} for ip, port in self.spec["hosts"]]))
+        else:
+            # the command line plumbing of rally.py / racecontrol.py: --target-hosts -> opts.TargetHosts -> client/hosts
+            # (-> set_default_hosts with the provisioning pipelines' default port when nothing was given)
+            from esrally import racecontrol
+            from esrally.utils import opts
+
+            arg = raw["value"]
+            if raw["form"] == "jsonfile":
+                arg = os.path.join(self.tmp, "target-hosts.json")
+                with open(arg, "w") as f:
+                    f.write(raw["value"])
+            cfg.add(config.Scope.applicationOverride, "client", "hosts", opts.TargetHosts(arg))
+            racecontrol.set_default_hosts(cfg, port=39200)
+        cfg.add(config.Scope.application, "mechanic", "runtime.jdk", "bundled")
+        cfg.add(config.Scope.application, "telemetry", "devices", [])
+        cfg.add(config.Scope.application, "telemetry", "params", {})
+        cfg.add(config.Scope.application, "system", "env.name", "c12")
         cfg.add(config.Scope.application, "mechanic", "repository.revision", "abc123")
         cfg.add(config.Scope.application, "mechanic", "car.names", ["defaults"])
         cfg.add(config.Scope.application, "mechanic", "car.params", {})
@@ -753,8 +914,10 @@ class Sim:
                 break
             self.do(en[self.rng.randrange(len(en))])
             steps += 1
-        shutil.rmtree(self.tmp, ignore_errors=True)
-        return self.finish()
+        try:
+            return self.finish()
+        finally:
+            shutil.rmtree(self.tmp, ignore_errors=True)
 
     def _resolve_inject(self, s, d, m):
         """injections name node actors by group (n<h>); returns the event with simulator names, or None if
@@ -794,7 +957,37 @@ class Sim:
             return x
 
         trace = [{"e": ren(t["e"]), "o": ren(t["o"])} for t in self.trace]
+        processes = []
+        for nid, d in sorted(self.daemons.items()):
+            alive = pid_alive(d["pid"])
+            try:
+                with open(d["inst"] + ".signals") as f:
+                    terms = f.read().count("T")
+            except OSError:
+                terms = 0
+            processes.append({"node": nid, "alive": alive, "terms": terms})
+            if alive:  # never leave anything behind
+                import signal
+
+                try:
+                    os.killpg(os.getpgid(d["pid"]), signal.SIGKILL)
+                except OSError:
+                    pass
+        if self.daemons:  # reap what was re-parented to us (terminated daemons, their helpers)
+            import time
+
+            for _ in range(50):
+                try:
+                    if os.waitpid(-1, os.WNOHANG) == (0, 0):
+                        if not any(pid_alive(d["pid"]) for d in self.daemons.values()):
+                            break
+                        time.sleep(0.002)
+                except ChildProcessError:
+                    break
         return {
+            "processes": processes,
+            "launches": self.launches,
+            "proc_problems": self.proc_problems,
             "trace": trace,
             "quiescent": self.quiescent,
             "anomalies": self.anomalies,
